@@ -98,10 +98,43 @@ def run(chk):
     sweep_centre_rule(chk, src)
     # ---- pass-through of full_matrices inside svd_qn
     sq = src.func("renormalizer/mps/svd_qn.py", "svd_qn")
-    modes = [unparse(n.value).replace(" ", "") for n in ast.walk(sq.node) if isinstance(n, ast.Assign) and unparse(n.targets[0]) == "mode"]
-    iff = [n for n in ast.walk(sq.node) if isinstance(n, ast.If) and unparse(n.test) == "full_matrices" and any(unparse(t.targets[0]) == "mode" for t in n.body if isinstance(t, ast.Assign))]
-    ok = bool(iff) and unparse(iff[0].body[0].value) == "'full'" and unparse(iff[0].orelse[0].value) == "'economic'"
-    chk.ob("svd-mode", "svd_qn: QR mode follows full_matrices", ok, sq.where, modes, "'full' if full_matrices else 'economic'", line=sq.node.lineno)
+    def flag_value(e, flag, val, depth=0):
+        """value of a small expression under flag = val: constants, conditional expressions / if-statements on the flag, names with such definitions"""
+        if isinstance(e, ast.Constant):
+            return e.value
+        if isinstance(e, ast.Name) and e.id == flag:
+            return val
+        if isinstance(e, ast.UnaryOp) and isinstance(e.op, ast.Not):
+            v = flag_value(e.operand, flag, val, depth)
+            return None if v is None else (not v)
+        if isinstance(e, ast.IfExp):
+            t = flag_value(e.test, flag, val, depth)
+            return None if t is None else flag_value(e.body if t else e.orelse, flag, val, depth)
+        if isinstance(e, ast.Name) and depth < 3:
+            vals = set()
+            for n in ast.walk(sq.node):
+                if isinstance(n, ast.Assign) and len(n.targets) == 1 and unparse(n.targets[0]) == e.id:
+                    # which way of the enclosing `if <flag>` (if any) is this assignment on?
+                    guard = None
+                    for g in ast.walk(sq.node):
+                        if isinstance(g, ast.If) and unparse(g.test).replace("not ", "").strip("()") == flag:
+                            tv = val if unparse(g.test) == flag else (not val)
+                            if any(x is n for b_ in g.body for x in ast.walk(b_)):
+                                guard = bool(tv)
+                            elif any(x is n for b_ in g.orelse for x in ast.walk(b_)):
+                                guard = not bool(tv)
+                    if guard is False:
+                        continue
+                    vals.add(flag_value(n.value, flag, val, depth + 1))
+            return vals.pop() if len(vals) == 1 else None
+        return None
+    qr = [c for c in ast.walk(sq.node) if isinstance(c, ast.Call) and unparse(c.func).endswith("linalg.qr")]
+    modes = []
+    for c in qr:
+        m_ = [k.value for k in c.keywords if k.arg == "mode"]
+        modes.append((flag_value(m_[0], "full_matrices", True), flag_value(m_[0], "full_matrices", False)) if m_ else ("full", "full"))
+    ok = bool(qr) and all(m_ == ("full", "economic") for m_ in modes)
+    chk.ob("svd-mode", "svd_qn: QR mode follows full_matrices", ok, sq.where, [f"full_matrices=True -> {a!r}, False -> {b!r}" for a, b in modes], "'full' if full_matrices else 'economic'", line=sq.node.lineno)
     osv = [n for n in ast.walk(sq.node) if isinstance(n, ast.Call) and unparse(n.func) == "optimized_svd"]
     ok = len(osv) == 1 and any(k.arg == "full_matrices" and unparse(k.value) == "full_matrices" for k in osv[0].keywords)
     chk.ob("svd-mode", "svd_qn: SVD receives full_matrices", ok, sq.where, [unparse(c)[:80] for c in osv], "optimized_svd(block, full_matrices=full_matrices, ...)")
